@@ -266,7 +266,7 @@ func (t *TxWatcher) AddWaitForCsvTx(swapId string, txId string, vout uint32, hei
 		txId,
 		t.targetCsv,
 	)
-	t.confirmationWatchers[swapId] = true
+	t.waitForCsvWatchers[swapId] = true
 	t.Unlock()
 
 	ctx, cancel := context.WithCancel(t.ctx)
